@@ -87,6 +87,7 @@ class CoordinationSystem:
         try:
             # G0 -> G1
             self.controller.advance(ctx)
+            self._check_not_terminated(ctx)
 
             # Acquire resources in G1
             resources = resources or []
@@ -102,6 +103,7 @@ class CoordinationSystem:
             checkpoint_result = self.controller.advance(ctx)
             if checkpoint_result != CheckpointResult.PASSED:
                 raise CheckpointError(f"G1 checkpoint failed: {checkpoint_result}")
+            self._check_not_terminated(ctx)
 
             # Execute work in S phase
             try:
@@ -154,6 +156,11 @@ class CoordinationSystem:
                 error=str(e),
                 duration_ms=duration_ms,
             )
+
+    def _check_not_terminated(self, ctx: OperationContext) -> None:
+        """Stop driving an operation that the watchdog, a kill or shutdown ended meanwhile."""
+        if self.controller.active_operations.get(ctx.operation_id) is not ctx:
+            raise CoordinationError("Operation was terminated")
 
     def run_maintenance(self) -> dict:
         """
